@@ -604,6 +604,7 @@ func Run(args []string) int {
 	maxBatches := fs.Int("maxbatches", 12, "max batches per history")
 	replay := fs.String("ops", "", "replay: gc name '=' batches of ops (first = start-up cluster), e.g. nginx=cc:nginx;cg:ns1/gw-a:nginx;ug:ns1/gw-a:other")
 	opsFile := fs.String("opsfile", "", "file with one -ops history per line")
+	exhaustive := fs.Int("exhaustive", 0, "enumerate ALL op histories of this length over 2 Gateways x {configured, other} and 2 GatewayClasses (every op its own batch, and all ops after start-up in one batch)")
 	if err := fs.Parse(args); err != nil {
 		return 2
 	}
@@ -634,7 +635,9 @@ func Run(args []string) int {
 			}
 		}
 	}
-	if len(replays) > 0 {
+	if *exhaustive > 0 {
+		enumerate(*exhaustive, st, tmpl, out)
+	} else if len(replays) > 0 {
 		// one output line per replayed history, in order ("X …" when an op was not applicable)
 		for _, rp := range replays {
 			parts := strings.SplitN(rp, "=", 2)
